@@ -62,12 +62,16 @@ func (p *Parser) ParsePackages(ctx context.Context, packageNames []string) ([]*c
 		if len(pkg.GoFiles) == 0 {
 			continue
 		}
-		for fileIdx, file := range pkg.GoFiles {
+		for _, file := range pkg.GoFiles {
 			fileLog := pkgLog.With().Str("file", file).Logger()
 			fileLog.Debug().Msg("found file")
 			fileCtx := fileLog.WithContext(pkgCtx)
 
-			fileSyntax := pkg.Syntax[fileIdx]
+			fileSyntax := syntaxOf(pkg, file)
+			if fileSyntax == nil {
+				fileLog.Debug().Msg("file has no syntax tree, skipping")
+				continue
+			}
 			nv := NewNodeVisitor(fileCtx)
 			ast.Walk(nv, fileSyntax)
 
@@ -114,4 +118,22 @@ func (p *Parser) ParsePackages(ctx context.Context, packageNames []string) ([]*c
 		}
 	}
 	return interfaces, nil
+}
+
+// syntaxOf returns the syntax tree of one of the package's GoFiles.
+// pkg.Syntax runs parallel to pkg.CompiledGoFiles, not to pkg.GoFiles: a file
+// that imports "C" is compiled from a generated copy, whose line directives
+// point back at the file it was made from.
+func syntaxOf(pkg *packages.Package, file string) *ast.File {
+	for _, syntax := range pkg.Syntax {
+		if pkg.Fset.PositionFor(syntax.Package, false).Filename == file {
+			return syntax
+		}
+	}
+	for _, syntax := range pkg.Syntax {
+		if pkg.Fset.PositionFor(syntax.Package, true).Filename == file {
+			return syntax
+		}
+	}
+	return nil
 }
